@@ -331,7 +331,7 @@ def gen_core_prog(rng, maxb=8, flagset=(0, 0, 0, F_PF, F_DETACH, F_STACK, F_ATTR
             if ch == 'cr':
                 c = todo.pop(0)
                 fl = rng.choice(flagset)
-                pages = rng.choice((4, 5, 8, 16, 33)) if fl & F_STACK else 0
+                pages = rng.choice((2, 3, 4, 5, 6, 7, 8, 16, 33)) if fl & F_STACK else 0
                 ops.append((OP['CR'], c, fl, pages))
                 if not (fl & F_DETACH):
                     pending.append(c)
